@@ -279,6 +279,14 @@ func Run(c *Case) *vkit.Outcome {
 			opts = append(opts, eventbus.WithSubscriptionStore(eventbus.NewMemoryStore()))
 		case "upcast":
 			opts = append(opts, eventbus.WithUpcast("old", "new", func(d json.RawMessage) (json.RawMessage, string, error) { return d, "new", nil }))
+		case "upcastself":
+			// upcasters whose SOURCE is a type that is being published (a rolling
+			// migration): they apply when events are replayed, never when they are written
+			for _, src := range []string{eventbus.EventType(Plain{}), eventbus.EventType(&Ptr{}), "c09.named.v1"} {
+				opts = append(opts, eventbus.WithUpcast(src, src+".next", func(d json.RawMessage) (json.RawMessage, string, error) {
+					return json.RawMessage(`{"id":-1,"migrated":true}`), src + ".next", nil
+				}))
+			}
 		}
 	}
 	bus := eventbus.New(opts...)
